@@ -313,7 +313,17 @@ def r19_5(chk):
     chk.floor("R19.5", 2, "skip test and scheduling call")
 
 
+def r19_5b(chk):
+    # the resume skip of apply_to is `input_id in self.data_store`: it stands for "already completed" only while the
+    # store's membership is one exact comparison on the full identifier (a looser match also "finds" not-completed
+    # records, and the append-mode write of the re-run result is then refused)
+    from . import c13
+
+    c13.base_membership(chk, "R19.5")
+
+
 def run(chk):
+    r19_5b(chk)
     r19_1(chk)
     r19_2(chk)
     r19_3(chk)
